@@ -1,4 +1,5 @@
 mod ab;
+mod af;
 mod alloc;
 mod common;
 mod fe;
@@ -39,6 +40,7 @@ fn main() {
         "c13" => pc::cmd_parser(tier, out, "c13"),
         "c12" => pc::cmd_c12(tier, out),
         "c06" => pc::cmd_c06(tier, out),
+        "af-worker" => af::worker(tier, a[3].parse().unwrap()),
         "c06-worker" => pc::cmd_c06_worker(&a[2], a[3].parse().unwrap()),
         other => {
             eprintln!("unknown command {}", other);
